@@ -32,7 +32,12 @@ void F__ZNK10chaiscript4eval13AST_Node_ImplINS0_6TracerIJNS0_18Noop_Tracer_Detai
   child_throw(behav[idx], TI_EVAL_ERROR, TI_BOXED_VALUE);
 }
 void F__ZN10chaiscript4eval17Arg_List_AST_NodeINS0_6TracerIJNS0_18Noop_Tracer_DetailEEEEE12get_arg_nameB5cxx11ERKNS0_13AST_Node_ImplIS4_EE(char* sret, char* n) { struct sso_string* s = (struct sso_string*)sret; s->p = s->buf; s->n = 1; s->buf[0] = 'e'; s->buf[1] = 0; }
-void F__ZN10chaiscript4eval17Arg_List_AST_NodeINS0_6TracerIJNS0_18Noop_Tracer_DetailEEEEE12get_arg_typeB5cxx11ERKNS0_13AST_Node_ImplIS4_EERKNS_6detail14Dispatch_StateE(char* sret, char* n, char* st) { memset(sret, 0, 56); struct sso_string* s = (struct sso_string*)sret; s->p = s->buf; }
+/* the declared type of a typed clause: a non-empty type name and an ARBITRARY Type_Info (a script class or an unknown type name
+   yields an undefined Type_Info; a registered C++ type a defined one) - whether the clause accepts the exception is decided by
+   Param_Types::match alone */
+void F__ZN10chaiscript4eval17Arg_List_AST_NodeINS0_6TracerIJNS0_18Noop_Tracer_DetailEEEEE12get_arg_typeB5cxx11ERKNS0_13AST_Node_ImplIS4_EERKNS_6detail14Dispatch_StateE(char* sret, char* n, char* st) {
+  memset(sret, 0, 56); struct sso_string* s = (struct sso_string*)sret; s->p = s->buf; s->n = 1; s->buf[0] = 'T';
+  *(uint32_t*)(sret + 32 + OFF_TI_flags) = nondet_u32() & (TIF_undef | TIF_const | TIF_reference | TIF_pointer | TIF_arithmetic); }
 void F__ZN10chaiscript8dispatch11Param_TypesC2ESt6vectorISt4pairINSt7__cxx1112basic_stringIcSt11char_traitsIcESaIcEEENS_9Type_InfoEESaISB_EE(char* self, char* v) { }
 void F__ZN10chaiscript8dispatch11Param_TypesD2Ev(char* self) { }
 static int match_of[2]; static int clause_ix;
